@@ -18,8 +18,9 @@ import (
 //	                           `swampDataFolderPath := swampName.GetFullHashPath(h.settingsInterface.GetHydraAbsDataFolderPath(),
 //	                           islandID, h.settingsInterface.GetHashFolderDepth(), h.settingsInterface.GetMaxFoldersPerLevel())`
 //	                           with islandID / swampName the parameters of the function
-//	gatewayThreeParts     yes: isValidSwampName is Split on "/" + `len(parts) == 3 && parts[0] != "" && parts[1] != "" && parts[2] != ""`
-//	                           and checkSwampName calls it;  no: the comparison is another one or the function is not called
+//	gatewayThreeParts     yes: isValidSwampName is [leading `if … { return false }` guards, which only refuse more names] + Split on "/" +
+//	                           `len(parts) == 3 && parts[0] != "" && parts[1] != "" && parts[2] != ""`, and checkSwampName calls it
+//	                      no : the same shape with another comparison of len(parts);  anything else: unknown
 //	serverChecksIsland    no : no non-test file under app/ calls GetFolderNumber or GetIslandID(<arg>) on a name, and every
 //	                           SummonSwamp / IsExistSwamp call of the gateway package passes <request>.GetIslandID() / .IslandID
 //	                           (or an identifier assigned from one)
@@ -212,23 +213,36 @@ func c20GlueGateway(fs *Facts) {
 		return
 	}
 	// ---- gatewayThreeParts
-	if fd := f.Func("", "isValidSwampName"); fd != nil && fd.Body != nil && len(fd.Body.List) == 2 && fd.Type.Params != nil && len(fd.Type.Params.List) == 1 && len(fd.Type.Params.List[0].Names) == 1 {
+	if fd := f.Func("", "isValidSwampName"); fd != nil && fd.Body != nil && fd.Type.Params != nil && len(fd.Type.Params.List) == 1 && len(fd.Type.Params.List[0].Names) == 1 {
 		arg := fd.Type.Params.List[0].Names[0].Name
+		// leading guards `if <cond> { return false }` only refuse MORE names (e.g. a length bound): accepted structurally
+		body := fd.Body.List
+		for len(body) > 2 {
+			is, ok := body[0].(*ast.IfStmt)
+			if !ok || is.Init != nil || is.Else != nil || len(is.Body.List) != 1 || f.Str(is.Body.List[0]) != "return false" {
+				break
+			}
+			body = body[1:]
+		}
 		var parts string
-		if as, ok := fd.Body.List[0].(*ast.AssignStmt); ok && len(as.Lhs) == 1 && f.Str(as.Rhs[0]) == `strings.Split(`+arg+`, "/")` {
-			parts = f.Str(as.Lhs[0])
+		if len(body) == 2 {
+			if as, ok := body[0].(*ast.AssignStmt); ok && len(as.Lhs) == 1 && len(as.Rhs) == 1 && f.Str(as.Rhs[0]) == `strings.Split(`+arg+`, "/")` {
+				parts = f.Str(as.Lhs[0])
+			}
 		}
 		called := false
 		if chk := f.Func("", "checkSwampName"); chk != nil {
 			called = len(f.Calls(chk, "isValidSwampName")) > 0
 		}
-		if rs, ok := fd.Body.List[1].(*ast.ReturnStmt); ok && parts != "" && len(rs.Results) == 1 {
-			got := strings.ReplaceAll(f.Str(rs.Results[0]), parts, "parts")
-			switch {
-			case got == `len(parts) == 3 && parts[0] != "" && parts[1] != "" && parts[2] != ""` && called:
-				fs.Tri("gatewayThreeParts", Yes, path+":"+itoa(f.Line(fd)))
-			case strings.HasPrefix(got, "len(parts) ") && strings.HasSuffix(got, ` && parts[0] != "" && parts[1] != "" && parts[2] != ""`) || !called:
-				fs.Tri("gatewayThreeParts", No, path+":"+itoa(f.Line(fd)))
+		if parts != "" {
+			if rs, ok := body[1].(*ast.ReturnStmt); ok && len(rs.Results) == 1 {
+				got := strings.ReplaceAll(f.Str(rs.Results[0]), parts, "parts")
+				switch {
+				case got == `len(parts) == 3 && parts[0] != "" && parts[1] != "" && parts[2] != ""` && called:
+					fs.Tri("gatewayThreeParts", Yes, path+":"+itoa(f.Line(fd)))
+				case strings.HasPrefix(got, "len(parts) ") && strings.HasSuffix(got, ` && parts[0] != "" && parts[1] != "" && parts[2] != ""`) && called:
+					fs.Tri("gatewayThreeParts", No, path+":"+itoa(f.Line(fd)))
+				}
 			}
 		}
 	}
